@@ -74,3 +74,130 @@ def replay(path: str) -> int:
     with open(path) as fh:
         print(fh.read()[:2000])
     return 0
+
+
+# ------------------------------------------------------------------------------------------
+# part 2: the repository's own test suite, observed at the API boundary and validated by TLC
+# ------------------------------------------------------------------------------------------
+RECORDER = r'''
+import json, os, sys
+sys.path.insert(0, os.environ["VERIF_DIR"])
+from harness import core
+
+OUT = open(os.environ["VERIF_TRACE_OUT"], "a")
+_depth = [0]
+
+
+def pytest_configure(config):
+    import jsonpath_rfc9535 as jp
+    from jsonpath_rfc9535.environment import JSONPathEnvironment
+    from jsonpath_rfc9535.query import JSONPathQuery
+
+    orig_compile = JSONPathEnvironment.compile
+    orig_find = JSONPathQuery.find
+
+    def is_plain(env):
+        # only environments with exactly the built-in functions and default limits are comparable to the spec's defaults
+        return (sorted(env.function_extensions) == ["count", "length", "match", "search", "value"]
+                and env.max_int_index == 2**53 - 1 and env.min_int_index == -(2**53) + 1 and not env.nondeterministic)
+
+    def compile_(self, query):
+        if _depth[0] or not isinstance(query, str):
+            return orig_compile(self, query)
+        _depth[0] += 1
+        rec = {"op": "compile", "q": [ord(c) for c in query]}
+        try:
+            try:
+                res = orig_compile(self, query)
+                rec.update(out="ok", jp=True, cls="")
+                return res
+            except BaseException as err:
+                rec.update(out="raise", jp=isinstance(err, jp.JSONPathError), cls=type(err).__name__, strok=True)
+                raise
+        finally:
+            _depth[0] -= 1
+            if is_plain(self) and not any(0xD800 <= c <= 0xDFFF for c in rec["q"]):
+                OUT.write(json.dumps(rec) + "\n")
+
+    def find_(self, value):
+        if _depth[0]:
+            return orig_find(self, value)
+        _depth[0] += 1
+        try:
+            text = str(self)
+            try:
+                nodes = orig_find(self, value)
+                out = dict(out="ok", jp=True, cls="", locs=[core.enc_loc(n.location) for n in nodes])
+            except BaseException as err:
+                out = dict(out="raise", jp=isinstance(err, jp.JSONPathError), cls=type(err).__name__, locs=[])
+                raise
+            finally:
+                try:
+                    if is_plain(self.env) and self.env.max_recursion_depth == 100:
+                        rec = {"op": "find", "q": [ord(c) for c in text], "doc": core.enc_value(value), "stage": "find", **out}
+                        OUT.write(json.dumps(rec) + "\n")
+                except Exception:
+                    pass
+            return nodes
+        finally:
+            _depth[0] -= 1
+
+    JSONPathEnvironment.compile = compile_
+    JSONPathQuery.find = find_
+    JSONPathQuery.apply = find_
+
+
+def pytest_unconfigure(config):
+    OUT.flush()
+'''
+
+
+def suite_traces(chk: core.Check) -> None:
+    """Run the repository's tests with compile()/find() observed at the API boundary (the recorder lives in
+    the scratch directory; nothing in /repo changes) and validate every recorded event with Trace.tla.
+    A find() event is keyed by str(query): it also exercises the str() round trip."""
+    import os  # noqa: PLC0415
+    import subprocess  # noqa: PLC0415
+
+    from . import common  # noqa: PLC0415
+
+    sdir = os.path.join(core.scratch(), "suite")
+    os.makedirs(sdir, exist_ok=True)
+    with open(os.path.join(sdir, "verif_recorder.py"), "w") as fh:
+        fh.write(RECORDER)
+    out = os.path.join(sdir, "events.ndjson")
+    env = dict(os.environ, VERIF_DIR=core.VERIF, VERIF_TRACE_OUT=out, PYTHONPATH=sdir + os.pathsep + core.REPO,
+               PYTHONDONTWRITEBYTECODE="1")
+    p = subprocess.run(["/venv/bin/python", "-m", "pytest", "-q", "-p", "no:cacheprovider", "-p", "verif_recorder", "--timeout=900",
+                        "--continue-on-collection-errors"], cwd=core.REPO, env=env, capture_output=True, text=True)
+    tail = (p.stdout.strip().splitlines() or ["?"])[-1]
+    chk.notes["repository_suite_under_recorder"] = tail
+    recs = []
+    if os.path.exists(out):
+        with open(out) as fh:
+            for line in fh:
+                try:
+                    recs.append(json.loads(line))
+                except ValueError:
+                    pass
+    seen = set()
+    uniq = []
+    for r in recs:
+        key = json.dumps(r, sort_keys=True)
+        if key not in seen:
+            seen.add(key)
+            uniq.append(r)
+    chk.notes["suite_events"] = len(recs)
+    chk.notes["suite_events_distinct"] = len(uniq)
+    if len(uniq) < 50:
+        raise core.MachineryError(f"only {len(uniq)} events recorded from the repository's suite: {tail}")
+    chk.sample({"suite_event": {"op": uniq[5]["op"], "q": core.dec_text(uniq[5]["q"]), "out": uniq[5]["out"]}})
+    common.judge(chk, uniq, "suite", what="Trace: events of the repository's own test suite vs the specification")
+
+
+_run_tokenstream = run
+
+
+def run(chk: core.Check, tier: str, seed: int) -> None:  # noqa: F811
+    _run_tokenstream(chk, tier, seed)
+    suite_traces(chk)
